@@ -300,6 +300,28 @@ func derefUsers(v ssa.Value) []ssa.Value {
 	return out
 }
 
+// loopHelperCandidate: a function of this repository without a contract, with a body that has
+// at least one loop and is small enough to be verified in its caller's context.
+func (eng *Engine) loopHelperCandidate(f *ssa.Function) bool {
+	if f.Pkg == nil || !strings.HasPrefix(f.Pkg.Pkg.Path(), "github.com/apernet/hysteria") {
+		return false
+	}
+	if len(f.Blocks) == 0 {
+		f.Pkg.Build()
+	}
+	if len(f.Blocks) == 0 || countLoops(f) == 0 {
+		return false
+	}
+	if eng.contractFor(f) != nil {
+		return false
+	}
+	n := 0
+	for _, b := range f.Blocks {
+		n += len(b.Instrs)
+	}
+	return n <= 200
+}
+
 func (eng *Engine) inlinable(f *ssa.Function) bool {
 	if f.Pkg == nil {
 		return false
